@@ -68,7 +68,7 @@ def run_mc(
     meta = scratch("mc")
     cmd = _java("-XX:+UseParallelGC", xmx) + [
         "tlc2.TLC",
-        "-workers", str(workers),
+        "-workers", str(min(workers, int(os.environ.get("VERIF_MAX_WORKERS", "64")))),      # (development runs in parallel cap this)
         "-metadir", str(meta),
         "-noGenerateSpecTE",
         "-config", cfg,
@@ -219,7 +219,7 @@ def validate(
         sizes[k] += len(s)
     base = scratch("tv")
     try:
-        with ThreadPoolExecutor(max_workers=min(nsh, max(1, shards))) as ex:
+        with ThreadPoolExecutor(max_workers=min(nsh, max(1, shards), int(os.environ.get("VERIF_MAX_WORKERS", "64")))) as ex:
             futs = [ex.submit(_run_trace_shard, module, cfg, b, k, base, timeout, env or {}) for k, b in enumerate(buckets)]
             vs = [f.result() for f in futs]
     finally:
